@@ -93,6 +93,17 @@ def cases(seed=0, thorough=False):
             lambda e: {A}  # ) lambda
         )
         """.format(A=body(a, "e")), ["lambda e: {A}".format(A=body(a, "e"))], True, "D6 strings and comments with code-like content")
+    # ---- a call whose lambda sits on the line, the next call opened at the end of that line with its lambda on the following line
+    a, b = nb(), nb()
+    add("r = ds.SelectMany(lambda e: %s).Select(\n    lambda e: %s\n)" % (_arg("SelectMany", body(a, "e")), body(b, "e")),
+        ["lambda e: %s" % _arg("SelectMany", body(a, "e")), "lambda e: %s" % body(b, "e")], True, "D8 lambda on the line, next call opened at the line end (different methods)")
+    a, b, c, d = nb(), nb(), nb(), nb()
+    add("r = ds.Where(lambda e: %s > 2).Select(lambda e: %s).Select(\n    lambda j: %s\n).Where(lambda p: %s > 3)" % (body(a, "e"), body(b, "e"), body(c, "j"), body(d, "p")),
+        ["lambda e: %s > 2" % body(a, "e"), "lambda e: %s" % body(b, "e"), "lambda j: %s" % body(c, "j"), "lambda p: %s > 3" % body(d, "p")], True,
+        "D8 three calls on the line, the third opened at the line end (told apart by method and argument names)")
+    a, b = nb(), nb()
+    add("r = ds.Select(lambda x: %s).Select(\n    lambda y: %s\n)" % (body(a, "x"), body(b, "y")),
+        ["lambda x: %s" % body(a, "x"), "lambda y: %s" % body(b, "y")], True, "D8 lambda on the line, next call opened at the line end (different argument names)")
     # ---- D1 with a body part of which the compiler folds away (no instruction is executed there)
     for bt in ("1 or {A}", "{A} if -True else {A} + 1", "({A}, 2)[0] if 0 else {A}"):
         a = nb()
